@@ -404,16 +404,6 @@ pub(crate) fn bnd_name_cmp_consistent_with_eq() {
     assert!(b.name().cmp(a.name()) == c.reverse());
 }
 
-/// [C16.name_cmp] transitivity of `<=` on three names.
-#[kani::proof]
-#[kani::unwind(6)]
-pub(crate) fn bnd_name_cmp_transitive() {
-    let (a, b, c) = (RefName::any(), RefName::any(), RefName::any());
-    if a.name().cmp(b.name()) != Ordering::Greater && b.name().cmp(c.name()) != Ordering::Greater {
-        assert!(a.name().cmp(c.name()) != Ordering::Greater);
-    }
-}
-
 /// [C16.name_hash] a name feeds the hasher its case-folded wire form (every
 /// length octet is <= 63 and is not changed by folding) - so equal names hash
 /// alike and nothing but ASCII case is ignored.
@@ -665,21 +655,49 @@ pub(crate) fn bnd_name_from_str_matches_reference() {
     }
 }
 
-/// [C16.text_roundtrip] Display -> FromStr gives the identical wire form, for
-/// the root and every name of one label of one arbitrary octet (all 256 values:
-/// '.', '\\', space, NUL, digits, non-ASCII...).  Two labels did not finish in
-/// 25 minutes (core::fmt padding + allocation), so the bound is this small.
+// NOTE: a Display -> FromStr round-trip harness (`write!` of a Name into a fixed
+// buffer, then `parse::<Box<Name>>()`) was tried with <= 2 labels x 1 octet and
+// with 1 label x 1 octet; CBMC did not finish within 25 / 15 minutes
+// (core::fmt `{:03}` padding + the DST allocation), so it was removed.  The
+// rendering half of C16 is therefore NOT covered.
+
+/// [C16.superdomain] `superdomain(skip)` is `None` iff there are not enough
+/// labels, else the name made of the labels from `skip` on (real allocation).
 #[kani::proof]
-#[kani::unwind(12)]
-pub(crate) fn bnd_name_display_fromstr_roundtrip() {
-    use core::fmt::Write;
+#[kani::unwind(17)]
+pub(crate) fn bnd_name_superdomain() {
     let a = RefName::any();
-    kani::assume(a.k <= 1);
-    kani::assume(a.k < 1 || a.len[0] <= 1);
-    let mut t = NTxt::new();
-    assert!(write!(t, "{}", a.name()).is_ok());
-    match t.as_str().parse::<Box<Name>>() {
-        Ok(back) => assert!(same(back.wire_repr(), a.wire())),
-        Err(_) => assert!(false),
+    let skip: usize = kani::any();
+    kani::assume(skip <= a.k + 2);
+    match a.name().superdomain(skip) {
+        None => assert!(skip > a.k),
+        Some(sup) => {
+            assert!(skip <= a.k);
+            assert!(sup.len() == a.k + 1 - skip);
+            assert!(sup.wire_repr() == &a.wire()[a.offset(skip)..]);
+            assert!(sup[0].octets() == a.label(skip));
+        }
+    }
+}
+
+/// [C16.labelbuf] `LabelBuf` (the HashMap key type) compares and hashes exactly
+/// like the `Label` it holds (labels <= 16 octets).
+#[kani::proof]
+#[kani::unwind(19)]
+pub(crate) fn bnd_labelbuf_agrees_with_label_16() {
+    let (ba, bb): ([u8; 16], [u8; 16]) = (kani::any(), kani::any());
+    let (a, b) = (any_label(&ba), any_label(&bb));
+    let (oa, ob) = (a.to_owned(), b.to_owned());
+    assert!(oa.octets() == a.octets());
+    assert!((oa == ob) == (a == b));
+    assert!(oa.cmp(&ob) == a.cmp(b));
+    let (mut h1, mut h2) = (Rec::new(), Rec::new());
+    a.hash(&mut h1);
+    oa.hash(&mut h2);
+    assert!(h1.n == h2.n);
+    let mut i = 0;
+    while i < 17 {
+        assert!(h1.b[i] == h2.b[i]);
+        i += 1;
     }
 }
